@@ -499,6 +499,119 @@ def extract_export_write(repo):
     return {'write': 'fs::write', 'read': {f'{EXPORT_RS}:let export_output': src[:src.find('let export_output')].count('\n') + 1}}
 
 
+# ------------------------------------------------------------------------------------------------
+# translator for the orderings of cmd_export  ->  lean/XvcPipeData/XvcPipeData/Gen/ExportOrder.lean
+
+GEN_EXPORT_ORDER = os.path.join(os.path.dirname(os.path.dirname(os.path.abspath(__file__))), 'lean', 'XvcPipeData', 'XvcPipeData', 'Gen', 'ExportOrder.lean')
+DEPS_MOD_RS = 'pipeline/src/pipeline/deps/mod.rs'
+_TO_STRING = r'(?:\w+\.to_string\(\)|format!\("\{\}",\s*\w+\)|ToString::to_string\(\w+\))'
+_BY_DISPLAY = [r'\.sorted_by_cached_key\(\|\s*\w+\s*\|\s*' + _TO_STRING + r'\s*\)', r'\.sorted_by_key\(\|\s*\w+\s*\|\s*' + _TO_STRING + r'\s*\)',
+               r'\.sorted_by\(\|\s*\w+\s*,\s*\w+\s*\|\s*\w+\.to_string\(\)\.cmp\(&\w+\.to_string\(\)\)\s*\)',
+               r'\.sorted_by\(\|\s*\w+\s*,\s*\w+\s*\|\s*Ord::cmp\(&\w+\.to_string\(\),\s*&\w+\.to_string\(\)\)\s*\)']
+
+
+def _classify_order(expr, coll):
+    """which `FieldOrder` (ExportOrder.lean) is the expression that fills a Vec field of XvcStepSchema from the HStore `coll[e]`?"""
+    e = re.sub(r'\s+', '', expr)
+    head = re.escape(coll) + r'\[e\]\.values\(\)\.cloned\(\)'
+    if re.fullmatch(head + r'\.sorted\(\)\.collect(?:::<Vec<_>>)?\(\)', e):
+        return 'derivedOrd'
+    if re.fullmatch(head + r'\.collect(?:::<Vec<_>>)?\(\)', e):
+        return 'unsorted'
+    for pat in _BY_DISPLAY:
+        if re.fullmatch(head + re.sub(r'\\s\*', '', pat) + r'\.collect(?:::<Vec<_>>)?\(\)', e):
+            return 'byDisplay'
+    return None
+
+
+def _field_expr(body, field):
+    """the expression after `field:` in a struct literal body, up to the comma at nesting depth 0"""
+    m = re.search(r'\b' + field + r'\s*:', body)
+    if not m:
+        return None
+    i, depth, start = m.end(), 0, m.end()
+    while i < len(body):
+        c = body[i]
+        if c in '([{': depth += 1
+        elif c in ')]}':
+            if depth == 0: break
+            depth -= 1
+        elif c == ',' and depth == 0: break
+        i += 1
+    return body[start:i].strip()
+
+
+def extract_export_order(repo):
+    """which ordering does cmd_export apply to the three collections it takes out of hash maps?  -> {'steps'|'dependencies'|'outputs':
+    'derivedOrd'|'byDisplay'|'unsorted', 'source': {...the expressions...}, 'display': {variant: fields shown by `impl Display`}}.
+    An expression the translator does not know is a broken tie (ReaderTieBroken)."""
+    try:
+        src = open(os.path.join(repo, EXPORT_RS), encoding='utf-8').read()
+    except OSError as e:
+        raise ReaderTieBroken(f'cannot read {EXPORT_RS}: {e}')
+    code = re.sub(r'//[^\n]*', '', src)
+    a = code.find('XvcStepSchema {', code.find('let mut step_schemas'))
+    if a < 0:
+        raise ReaderTieBroken(f'{EXPORT_RS}: the `XvcStepSchema {{ .. }}` literal of cmd_export was not found')
+    i, depth = code.index('{', a) + 1, 1
+    b = i
+    while b < len(code) and depth:
+        depth += {'{': 1, '}': -1}.get(code[b], 0)
+        b += 1
+    body = code[i:b - 1]
+    info = {'source': {}, 'read': {f'{EXPORT_RS}:XvcStepSchema literal': code[:a].count('\n') + 1}}
+    for field, coll in (('dependencies', 'deps'), ('outputs', 'outs')):
+        expr = _field_expr(body, field)
+        kind = _classify_order(expr, coll) if expr else None
+        if kind is None:
+            shown = ' '.join((expr or '<missing>').split())[:200]
+            raise ReaderTieBroken(f'{EXPORT_RS}: `{field}:` of XvcStepSchema is filled by an expression whose ordering the model does not know: {shown}')
+        info[field] = kind
+        info['source'][field] = re.sub(r'\s*\.\s*(?=\w+\()', '.', re.sub(r'\s+', ' ', expr))
+    m = re.search(r'for\s*\(e,\s*s\)\s*in\s*steps\s*\.iter\(\)\s*(\.sorted\(\))?\s*\{', code)
+    if not m:
+        raise ReaderTieBroken(f'{EXPORT_RS}: the loop `for (e, s) in steps.iter()…` was not found')
+    info['steps'] = 'derivedOrd' if m.group(1) else 'unsorted'
+    info['source']['steps'] = re.sub(r'\s+', ' ', m.group(0))[:-1].strip()
+    # which fields does the Display string of a dependency show (evidence only: where a sort by that string cannot tell values apart)
+    try:
+        mod = open(os.path.join(repo, DEPS_MOD_RS), encoding='utf-8').read()
+        blk = mod[mod.index('impl Display for XvcDependency'):]
+        blk = blk[:blk.index('\nimpl ', 10)] if '\nimpl ' in blk[10:] else blk
+        info['display'] = {v: sorted(set(re.findall(r'\bdep\.(\w+)', arm)))
+                           for v, arm in re.findall(r'XvcDependency::(\w+)\(dep\)\s*=>\s*(.*?)(?=XvcDependency::\w+\(dep\)\s*=>|\Z)', blk, re.S)}
+    except (OSError, ValueError):
+        info['display'] = {}
+    return info
+
+
+def render_export_order(info):
+    src = info['source']
+    return ('import XvcPipeData.ExportOrder\n'
+            '/-! GENERATED by lib/c14_strings.py (extract_export_order) from pipeline/src/pipeline/api/export.rs on every run of the C14 check — do not edit. -/\n'
+            'namespace PipeData.Gen\n\n'
+            f'/-- `{src["steps"]}` -/\ndef stepsOrder : FieldOrder := .{info["steps"]}\n\n'
+            f'/-- `dependencies: {src["dependencies"]}` -/\ndef dependenciesOrder : FieldOrder := .{info["dependencies"]}\n\n'
+            f'/-- `outputs: {src["outputs"]}` -/\ndef outputsOrder : FieldOrder := .{info["outputs"]}\n\n'
+            'end PipeData.Gen\n')
+
+
+def write_export_order(info):
+    """write Gen/ExportOrder.lean when its content changes (temp file + rename); -> True if it was rewritten"""
+    text = render_export_order(info)
+    try:
+        if open(GEN_EXPORT_ORDER, encoding='utf-8').read() == text:
+            return False
+    except OSError:
+        pass
+    os.makedirs(os.path.dirname(GEN_EXPORT_ORDER), exist_ok=True)
+    tmp = GEN_EXPORT_ORDER + f'.tmp{os.getpid()}'
+    with open(tmp, 'w', encoding='utf-8') as h:
+        h.write(text)
+    os.replace(tmp, GEN_EXPORT_ORDER)
+    return True
+
+
 def to_stream(data: bytes):
     """bytes -> the `pipedata reader` stream encoding (code points, X for a byte outside every well-formed sequence)"""
     s = data.decode('utf-8', 'surrogateescape')
